@@ -262,7 +262,9 @@ def py_options(cs, salt):
             else:
                 out[s] = {'none': True, 'valid': False, 'bad': BAD_IGN[salt % len(BAD_IGN)]}[e]
         if d['extra'] == 'unknown':
-            out['ZZZ'] = None if kind != 'ignoreH' else True
+            # not the name of a species of the system, however close to the names that are (part of one, several joined)
+            unk = ['ZZZ', '', 'AB', 'A B', 'A, B', 'a', 'BA', "A', 'B", 'A\nB', 'A,B'][salt % 10]
+            out[unk] = None if kind != 'ignoreH' else True
         elif d['extra'] == 'incomplete':
             out['D'] = None if kind != 'ignoreH' else True
         return out
